@@ -28,7 +28,7 @@ func checkC04(c *Ctx) {
 	c.exhaust = true
 	checkAxisDiscipline(c, "C04.R5", "geom", "index/rtree", "op")
 	c.Floor("C04.R5", 2)
-	c.Floor("C04.R1", 7)
+	c.Floor("C04.R1", 4)
 	c.Floor("C04.R2", 16)
 	c.Floor("C04.R3", 8)
 }
